@@ -59,7 +59,7 @@ func row(pts []r2.Point, a, z int) string {
 // visit lists the chords the recursion looks at, in the order of the reference implementation (a port
 // of referenceDouglasPeuckerSimplify on indices [b,e), used ONLY to choose which rows to ship for long
 // lines; the driver reports a model run that needs a row that was not shipped).
-func visit(pts []r2.Point, eps float64, b, e int, rows *[]string, depth int, maxDepth *int, ties *bool) {
+func visit(pts []r2.Point, eps float64, b, e int, rows *[]string, depth int, maxDepth *int, ties *bool, atTol *bool) {
 	if depth > *maxDepth {
 		*maxDepth = depth
 	}
@@ -78,9 +78,12 @@ func visit(pts []r2.Point, eps float64, b, e int, rows *[]string, depth int, max
 	if hits > 1 {
 		*ties = true
 	}
+	if maxi > 0 && max == eps { // the farthest point lies exactly at the tolerance: `>` keeps the chord, `>=` would split
+		*atTol = true
+	}
 	if maxi > 0 && max > eps {
-		visit(pts, eps, b, maxi, rows, depth+1, maxDepth, ties)
-		visit(pts, eps, maxi, e, rows, depth+1, maxDepth, ties)
+		visit(pts, eps, b, maxi, rows, depth+1, maxDepth, ties, atTol)
+		visit(pts, eps, maxi, e, rows, depth+1, maxDepth, ties, atTol)
 	}
 }
 
@@ -174,7 +177,7 @@ func runOne(c *hx.Ctx, pts []r2.Point, eps float64, epsKind string) {
 	n := len(pts)
 	m, vs := vids(pts)
 	var rows []string
-	depth, ties := 0, false
+	depth, ties, atTol := 0, false, false
 	if n <= 12 { // every chord: the model does not depend on the port above
 		for a := 0; a < n; a++ {
 			for z := a + 2; z < n; z++ {
@@ -182,10 +185,10 @@ func runOne(c *hx.Ctx, pts []r2.Point, eps float64, epsKind string) {
 			}
 		}
 		var dummy []string
-		visit(pts, eps, 0, n, &dummy, 0, &depth, &ties)
+		visit(pts, eps, 0, n, &dummy, 0, &depth, &ties, &atTol)
 		c.Note("rows:full")
 	} else {
-		visit(pts, eps, 0, n, &rows, 0, &depth, &ties)
+		visit(pts, eps, 0, n, &rows, 0, &depth, &ties, &atTol)
 		c.Note("rows:visited")
 	}
 	var iter, ref string
@@ -225,6 +228,12 @@ func runOne(c *hx.Ctx, pts []r2.Point, eps float64, epsKind string) {
 	}
 	if ties {
 		c.Note("tie-for-max")
+	}
+	if atTol {
+		c.Note("boundary:max-equals-tolerance")
+		if eps == math.Trunc(eps) && eps > 0 {
+			c.Note("boundary:max-equals-integer-tolerance")
+		}
 	}
 	kept := strings.Count(iter, " ") + 1
 	switch {
@@ -372,8 +381,10 @@ func genEps(c *hx.Ctx, pts []r2.Point) (float64, string) {
 	r := c.Rand
 	n := len(pts)
 	switch k := r.Intn(40); {
-	case k < 4:
+	case k < 3:
 		return 0, "zero"
+	case k < 4:
+		return float64(1 + r.Intn(3)), "small-integer" // with integer grids / zigzags: points exactly at the tolerance
 	case k < 6:
 		return 5.0, "five"
 	case k < 22 && n >= 3: // an actual distance of some chord, or its neighbours: the `max > eps` boundary
@@ -413,7 +424,7 @@ func main() {
 	hx.RegisterChild("ref", child("ref"))
 	hx.Main(hx.Family{
 		Name: "c34",
-		Rule: "one line (2..200 points; 8 shapes: integer grid, floats, collinear runs, axis-aligned zigzag with exact ties, ring, walk, spikes, extreme magnitudes; modifiers: repeated runs, all-equal, closed loop) simplified with 1-3 tolerances (0, 5, an actual distance +-1ulp, random, +Inf, NaN, denormal, -0, negative); non-trivial = at least 3 points and the result keeps some but not all interior points; distinct = by hash of the op text",
+		Rule: "one line (2..200 points; 8 shapes: integer grid, floats, collinear runs, axis-aligned zigzag with exact ties, ring, walk, spikes, extreme magnitudes; modifiers: repeated runs, all-equal, closed loop) simplified with 1-3 tolerances (0, 1..3, 5, an actual distance +-1ulp, random, +Inf, NaN, denormal, -0, negative); non-trivial = at least 3 points and the result keeps some but not all interior points; distinct = by hash of the op text",
 		Quick:    3000,
 		Thorough: 50000,
 		Corpus: func(c *hx.Ctx) {
